@@ -383,16 +383,20 @@ def _errors_class(trace, rv):
 
 def lone_anonymous_table(ck, repo, w):
     """Shared with C18.R4: operations are indexed by name at request time, so several anonymous operations would collapse into one."""
+    from ..q import collected_into
     m = w.validate_method("lone-anonymous-operation")
     mv = FuncView(m)
-    apps = [c for c in mv.calls("append") if unparse(c.func.value) == "bad_nodes"]
-    ok = len(apps) == 1 and (f"len({m.positional_params[2]}) > 1", "T") in [(t, o) for t, o in mv.conditions(apps[0])] and \
-        any(t.endswith(".name is None") and o == "T" for t, o in mv.conditions(apps[0]))
-    ck.ob("lone-anonymous-operation: an operation is reported iff it is anonymous and the document has more than one operation", ok, m, apps[0] if apps else m.node,
-          construct="table:lone-anonymous")
-    errs = [c for c in mv.calls("append") if unparse(c.func.value) == "errors"]
-    ck.ob("lone-anonymous-operation: an error is produced only when such an operation exists", len(errs) == 1 and mv.guarded(errs[0], lambda t: t == "bad_nodes", "T"), m,
-          errs[0] if errs else m.node, construct="table:lone-anonymous:guard")
+    ops = m.positional_params[2]
+    # the error construction and the list it reports (whatever the list is called, however it is filled)
+    errs = [c for c in mv.calls("graphql_error_from_nodes")]
+    lst = arg_text(errs[0], None, "nodes") if len(errs) == 1 else None
+    got = collected_into(mv, lst) if lst else []
+    ok = len(got) == 1 and got[0][1] == ops and got[0][2] == frozenset({(f"len({ops}) > 1", "T"), (f"{got[0][0]}.name is None", "T")})
+    ck.ob("lone-anonymous-operation: an operation is reported iff it is anonymous and the document has more than one operation", ok, m, errs[0] if errs else m.node,
+          construct="table:lone-anonymous", detail=str([(e, i, sorted(c)) for e, i, c in got]))
+    ok = len(errs) == 1 and set(mv.conditions(errs[0])) == {(lst, "T")}
+    ck.ob("lone-anonymous-operation: an error is produced exactly when such an operation exists", ok, m, errs[0] if errs else m.node, construct="table:lone-anonymous:guard",
+          detail=str(sorted(mv.conditions(errs[0]))) if errs else None)
 
 
 def rule_tables(ck, repo, w):
